@@ -3,8 +3,15 @@
 set -e
 cd "$(dirname "$0")"
 mkdir -p build evidence replay coq/Gen
-PYTHONPATH="${VERIF_REPO:-/repo}" PYTHONHASHSEED=0 /venv/bin/python -W ignore harness/gen_tables.py 2>/dev/null | sed -n '/BEGIN TABLES/,$p' > build/Tables.v.new
-if ! cmp -s build/Tables.v.new coq/Gen/Tables.v; then cp build/Tables.v.new coq/Gen/Tables.v; fi
+export PYTHONPATH="${VERIF_REPO:-/repo}" PYTHONHASHSEED=0 PYTHONDONTWRITEBYTECODE=1
+/venv/bin/python -W ignore - <<'PY'
+import sys
+sys.path.insert(0, ".")
+from harness import common as C
+ok, log = C.gen_tables()
+assert ok, log
+C.write_coqproject()
+PY
 cd coq
 coq_makefile -f _CoqProject -o Makefile > /dev/null
 timeout 3000 make -j16
